@@ -1,16 +1,28 @@
-"""Registry of checks: property id -> explorers (parts), evidence level, deadlines."""
+"""Registry of checks: every engine/<ID>.check.json describes one property's explorers.
+
+{
+ "id": "C01", "level": "model_checking",
+ "parts": [{"name": "c01_conv", "src": "c01_conv.c", "variant": "plain"|"asan",
+            "cflags": [...], "args": [...], "workers": 16, "share": 0.5, "tiers": ["quick","thorough"]}],
+ "deadline": {"quick": 240, "thorough": 1800},
+ "assumptions": [...]
+}
+"""
+import glob
+import json
+import os
+
+ENGINE = os.path.join(os.path.dirname(os.path.dirname(os.path.abspath(__file__))), "engine")
 
 TRUST = [
-    "the reference models in engine/ref*.h (self-checked at start-up against a second formulation; a disagreement is exit 3, not a violation)",
+    "the reference models in engine/ref*.h are right (self-checked at start-up against a second formulation; a disagreement is exit 3, not a violation)",
     "gcc 12, glibc and (asan variant) libasan behave as documented",
     "the scratch copy built by the repository's own make from /repo's working tree is what the tools are",
 ]
 
-CHECKS = {
-    "C01": dict(
-        level="model_checking",
-        parts=[dict(name="c01_conv", src="c01_conv.c", variant="plain")],
-        deadline=dict(quick=240, thorough=1800),
-        assumptions=TRUST + ["text conventions left open by the statement (zero padding, Sunday as 0 or 7) are compared as parsed values"],
-    ),
-}
+CHECKS = {}
+for fn in sorted(glob.glob(os.path.join(ENGINE, "*.check.json"))):
+    with open(fn) as f:
+        c = json.load(f)
+    c["assumptions"] = TRUST + c.get("assumptions", [])
+    CHECKS[c["id"]] = c
